@@ -122,8 +122,8 @@ def c02(run):
     parser_models(run, ["optdup", "barrier"] + ([] if quick(run) else ["refs"]))
     pk, scen, obs, bad, out = run_parse(run, "C02", {"VIOLATION-C02"}, _sizes(run))
     clauses = collections.Counter()
-    for tag, rest in vlib.prints(out, "CLAUSE"):
-        clauses[json.loads(rest.split(", ", 1)[1])] += 1
+    for tag, ln, txt in vlib.event_prints(out, "CLAUSE"):
+        clauses[txt] += 1
     accepted = clauses.get("", 0)
     run.cov["evaluations"] += len(obs)
     run.cov["traces_validated_against_impl"] += len(obs) - len(bad)
@@ -256,3 +256,229 @@ def c18(run):
         sc = json.loads(scen[ln - 1])
         sc.pop("nolog", None)
         run.violation("parse|steps over the linear bound", why, sc)
+
+
+# ------------------------------------------------------------------------------------------------
+# accepted packets: born in the specification (S1) + generated (S4) + repository seeds (S5)
+
+def gen_s1(run, count, offset=None, stride=7919):
+    """Packets enumerated by TLC from spec/Gen_S1.tla (round trip checked while generating)."""
+    offset = vlib.seed() * 104729 if offset is None else offset
+    cfg = os.path.join(run.wd, "Gen_S1_%d.cfg" % count)
+    with open(cfg, "w") as f:
+        f.write("CONSTANTS\n  MaxLabel = 63\n  MaxName = 255\n  MaxRefs = 16\n  Count = %d\n  Stride = %d\n  Offset = %d\nINIT Init\nNEXT Next\nCHECK_DEADLOCK FALSE\n" % (count, stride, offset % 1000000))
+    rc, out = vlib.tlc("Gen_S1.tla", cfg, run.wd, workers=vlib.NCPU, timeout=1800)
+    bad = vlib.tlc_failed(rc, out)
+    if bad or "BADGEN" in out:
+        raise ToolError("Gen_S1 failed: %s\n%s" % (bad, vlib.tlc_error_text(out) if bad else [l for l in out.splitlines() if "@@BADGEN" in l][:3]))
+    pk = []
+    for _, rest in vlib.prints(out, "REPLAY"):
+        pk.append(rest)
+    st = vlib.tlc_stats(out)
+    run.cov.setdefault("generators", []).append({"module": "Gen_S1", "count": len(pk), "states": st["distinct"] if st else 0})
+    return pk
+
+
+def accepted_inputs(run, n_s1, n_honest, n_struct, pointer_free=False):
+    sd = vlib.seed()
+    pk = gen_s1(run, n_s1)
+    if pointer_free:
+        pk += vlib.vdrive_gen("pointerfree", sd + 11, n_honest)
+    else:
+        pk += vlib.vdrive_gen("honest", sd + 11, n_honest)
+        pk += vlib.vdrive_gen("structured", sd + 12, n_struct)
+    pk += vlib.vdrive_gen("boundary", 0, 0)
+    pk += seed_packets()
+    return dedupe(pk)
+
+
+def drive_filtered(run, scen, name):
+    """Runs scenarios; drops the ones the executor skipped (input not accepted by the parser)."""
+    obs, _ = vlib.drive(scen, run.wd, name + "_raw")
+    if len(obs) != len(scen):
+        raise ToolError("driver returned %d observations for %d scenarios" % (len(obs), len(scen)))
+    keep = [(s, o) for s, o in zip(scen, obs) if not o.startswith('{"k":"skip"')]
+    path = os.path.join(run.wd, name + ".ndjson")
+    with open(path, "w") as f:
+        for _, o in keep:
+            f.write(o + "\n")
+    os.unlink(os.path.join(run.wd, name + "_raw.ndjson"))
+    return [s for s, _ in keep], [o for _, o in keep], path
+
+
+def readers_run(run, inv, tag):
+    n = (2500, 2500, 4000) if quick(run) else (60000, 40000, 60000)
+    pk = accepted_inputs(run, *n)
+    scen, obs, path = drive_filtered(run, vlib.with_do(pk, "read"), "read")
+    bad, out = vlib.validate(path, "Trace_Read", "Trace_Read_%s.cfg" % inv, run.wd, len(obs), {tag})
+    run.cov["evaluations"] += len(obs)
+    run.cov["traces_validated_against_impl"] += len(obs) - len(bad)
+    run.cov["samples"] = [vlib.shorten(o, 500) for o in vlib.sample(obs, 2)]
+    for ln, (t, why) in sorted(bad.items()):
+        sc = json.loads(scen[ln - 1])
+        run.violation("read|" + (why.split(":")[-1].strip() if isinstance(why, str) else "?"), why, sc)
+    return scen, obs, out
+
+
+@check("C03")
+def c03(run):
+    run.assumptions += ["accepted packets come from the TLA+ generator Gen_S1 (OPT at every position, every name-bearing type, three layouts), from the seeded generators and from the repository's own packets; rejected inputs are skipped",
+                        "the OPT-skipping and the OPT-including readers are both walked to the end; a panic of any accessor is a recorded event"]
+    run.model("MC_Readers", "MC_Readers.cfg")
+    run.negative_control("MC_Readers", "MC_Readers_neg.cfg")
+    scen, obs, out = readers_run(run, "C03F", "VIOLATION-C03")
+    facts = collections.Counter()
+    nontrivial = 0
+    for _, ln, txt in vlib.event_prints(out, "FACTS"):
+        f = json.loads(txt)
+        facts["opt:" + f["opt"]] += 1
+        if f["ptrs"] > 0:
+            facts["with pointers"] += 1
+        if f["nrec"] >= 2 or f["ptrs"] > 0:
+            nontrivial += 1
+    run.cov["packet_facts"] = dict(facts)
+    run.cov["distinct_nontrivial"] = nontrivial
+    run.cov["rule"] = "distinct accepted packets; non-trivial = at least two records or at least one compression pointer"
+    for k in ("opt:first", "opt:middle", "opt:last", "opt:none", "with pointers"):
+        if facts.get(k, 0) == 0 and not any("res\":\"panic" in o for o in obs):
+            raise ToolError("vacuous run: no accepted packet with %s" % k)
+
+
+@check("C04")
+def c04(run):
+    run.assumptions += ["the flag-word sweep rewrites bytes 2..3 of six base packets (query/response, without OPT and with OPT carrying extended flags 0x0000/0x8000/0xffff, question through a header pointer) with every 16-bit value (thorough) or 4096 seeded values plus all one-hot and all-but-one words (quick); words that make the packet unacceptable to the parser are skipped by the driver"]
+    run.model("MC_Header", "MC_Header.cfg")
+    scen, obs, out = readers_run(run, "C04", "VIOLATION-C04")
+    # flag-word sweep on base packets
+    import random
+    rnd = random.Random(vlib.seed())
+    words = set(1 << k for k in range(16)) | set(0xffff ^ (1 << k) for k in range(16)) | {0, 0xffff}
+    if quick(run):
+        while len(words) < 4096:
+            words.add(rnd.randrange(65536))
+    else:
+        words = set(range(65536))
+    q = [1, 113, 0, 0, 1, 0, 1]
+    opt = lambda hi, lo: [0, 0, 41, 4, 208, 3, 1, hi, lo, 0, 4, 0, 10, 0, 0]
+    bases = [
+        [0, 7, 0, 0, 0, 1, 0, 0, 0, 0, 0, 0] + q,
+        [0, 7, 0, 0, 0, 1, 0, 0, 0, 0, 0, 1] + q + opt(0, 0),
+        [0, 7, 0, 0, 0, 1, 0, 0, 0, 0, 0, 1] + q + opt(128, 0),
+        [0, 7, 0, 0, 0, 1, 0, 0, 0, 0, 0, 1] + q + opt(255, 255),
+        [0, 7, 0, 0, 0, 1, 0, 1, 0, 0, 0, 1] + q + [192, 12, 0, 1, 0, 1, 0, 0, 0, 9, 0, 4, 1, 2, 3, 4] + opt(128, 0),
+        [1, 97, 0, 0, 0, 1, 0, 0, 0, 0, 0, 0, 192, 0, 0, 1, 0, 1],   # question written through a pointer into the header
+    ]
+    sw = []
+    for b in bases:
+        for w in sorted(words):
+            p = list(b)
+            p[2], p[3] = w >> 8, w & 255
+            sw.append('{"do":"read","pkt":%s}' % json.dumps(p, separators=(",", ":")))
+    s2, o2, path = drive_filtered(run, sw, "sweep")
+    bad, out2 = vlib.validate(path, "Trace_Read", "Trace_Read_C04.cfg", run.wd, len(o2), {"VIOLATION-C04"})
+    run.cov["evaluations"] += len(o2)
+    run.cov["traces_validated_against_impl"] += len(o2) - len(bad)
+    run.cov["flag_words_per_base"] = len(words)
+    run.cov["sweep_events_accepted"] = len(o2)
+    run.cov["exhaustive_flag_words"] = not quick(run)
+    run.cov["distinct_nontrivial"] = len(obs) + len(o2)
+    run.cov["rule"] = "distinct accepted packets (generated packets deduplicated by hash; sweep packets distinct by (base, flag word))"
+    run.cov["samples"].append(vlib.shorten(o2[len(o2) // 2], 400))
+    if len(o2) < len(words) * 3:
+        raise ToolError("vacuous sweep: only %d of %d sweep packets were accepted" % (len(o2), len(sw)))
+    for ln, (t, why) in sorted(bad.items()):
+        run.violation("sweep|" + str(why), why, json.loads(s2[ln - 1]))
+
+
+# ------------------------------------------------------------------------------------------------
+# C05 / C06 / C07: packet-to-packet transformations
+
+def transform_run(run, scen, name, inv, tag):
+    scen, obs, path = drive_filtered(run, scen, name)
+    bad, out = vlib.validate(path, "Trace_Transform", "Trace_Transform_%s.cfg" % inv, run.wd, len(obs), {tag})
+    facts = collections.Counter()
+    for _, ln, txt in vlib.event_prints(out, "FACT"):
+        facts[txt] += 1
+    inq = len(obs) - facts.get("skipped", 0)
+    run.cov["evaluations"] += inq
+    run.cov["outside_quantifier_skipped"] = run.cov.get("outside_quantifier_skipped", 0) + facts.get("skipped", 0)
+    run.cov["traces_validated_against_impl"] += inq - len(bad)
+    run.cov.setdefault("facts", {})
+    for k, v in facts.items():
+        run.cov["facts"][k] = run.cov["facts"].get(k, 0) + v
+    run.cov["samples"] += [vlib.shorten(o, 500) for o in vlib.sample(obs, 2)]
+    return scen, obs, bad, facts
+
+
+def compress_models(run):
+    """M: the suffix-dictionary machine (spec/Compress.tla), repaired design, all sequences of <= 4
+    (thorough: 5) names of <= 3 labels with a 3-slot dictionary (wrap-around and pinned slot) and
+    MaxRefs = 2; the two defect switches must be detected."""
+    run.model("MC_Compress", "MC_Compress.cfg" if quick(run) else "MC_Compress_thorough.cfg", timeout=3600)
+    run.negative_control("MC_Compress", "MC_Compress_neg_offsets.cfg")
+    run.negative_control("MC_Compress", "MC_Compress_neg_depth.cfg")
+
+
+def rename_models(run):
+    """M: the byte-level transcription of replace_raw computes Rename!Replace on every
+    (name, source, target, mode) over labels {a, A, ab} up to three labels, MaxName scaled to 7."""
+    run.model("MC_Rename", "MC_Rename.cfg")
+
+
+@check("C05")
+def c05(run):
+    run.assumptions += ["for every accepted packet the driver asks for every offset 12..min(len,712) and len to be carried across; the specification looks at those that are record boundaries of Decode(input) (non-boundary offsets are outside the statement)"]
+    n = (2500, 2000, 3000) if quick(run) else (60000, 30000, 50000)
+    pk = accepted_inputs(run, *n)
+    scen = vlib.with_do(pk, "uncompress", '"all_offsets":true,')
+    scen, obs, bad, facts = transform_run(run, scen, "unc", "C05", "VIOLATION-C05")
+    run.cov["distinct_nontrivial"] = facts.get("compressed", 0)
+    run.cov["rule"] = "distinct accepted packets; non-trivial = the input contains at least one compression pointer"
+    if facts.get("compressed", 0) < 100:
+        raise ToolError("vacuous run: only %d compressed inputs" % facts.get("compressed", 0))
+    for ln, (t, why) in sorted(bad.items()):
+        run.violation("uncompress|" + str(why).split(":")[0], why, json.loads(scen[ln - 1]))
+
+
+@check("C06")
+def c06(run):
+    run.assumptions += ["inputs are the accepted pointer-free packets among: Gen_S1 packets in the plain layout, the pointer-free generator, the decompressed form of compressed packets (the event logs the actual input), and families that stress the dictionary (nesting to depth 40, up to 70 distinct suffixes, suffixes of 120..132 bytes, names beyond offset 16383, mixed-case duplicates with OPT at every position)",
+                        "which suffixes are shared and the exact output bytes are not compared"]
+    compress_models(run)
+    n = (2500, 3000, 1500) if quick(run) else (60000, 40000, 30000)
+    sd = vlib.seed()
+    pk = gen_s1(run, n[0])
+    via = dedupe(pk + vlib.vdrive_gen("honest", sd + 21, n[2]))
+    direct = dedupe(vlib.vdrive_gen("pointerfree", sd + 22, n[1]) + vlib.vdrive_gen("compressfam", 0, 0) + seed_packets())
+    scen = vlib.with_do(direct, "compress") + vlib.with_do(via, "compress", '"via_uncompress":true,')
+    scen, obs, bad, facts = transform_run(run, scen, "comp", "C06", "VIOLATION-C06")
+    run.cov["distinct_nontrivial"] = facts.get("shrunk", 0)
+    run.cov["rule"] = "accepted pointer-free inputs; non-trivial = compression made the packet strictly shorter (at least one pointer was emitted)"
+    if facts.get("shrunk", 0) < 100 and not bad:
+        raise ToolError("vacuous run: only %d inputs were actually compressed" % facts.get("shrunk", 0))
+    for ln, (t, why) in sorted(bad.items()):
+        w = str(why)
+        sig = "compress|" + w.split(":")[0] + ("|" + w.split(":", 1)[1].strip() if "rejected" in w and ":" in w else "")
+        run.violation(sig, why, json.loads(scen[ln - 1]))
+
+
+@check("C07")
+def c07(run):
+    run.assumptions += ["(target, source, mode) are drawn per packet from the names the packet contains (every label depth), case variants, partial-label near misses, self renames and targets that push rewritten names past 255 bytes",
+                        "compression choices of the output and the letter case of names are not compared"]
+    rename_models(run)
+    n = (2500, 1500, 1000) if quick(run) else (50000, 30000, 20000)
+    pk = accepted_inputs(run, *n) + vlib.vdrive_gen("compressfam", 0, 0)
+    per = 3
+    scen = []
+    sd = vlib.seed()
+    for i, l in enumerate(pk):
+        for j in range(per):
+            scen.append('{"do":"rename_menu","n":1,"seed":%d,%s' % (sd * 1000003 + i * per + j, l[1:]))
+    scen, obs, bad, facts = transform_run(run, scen, "ren", "C07", "VIOLATION-C07")
+    run.cov["distinct_nontrivial"] = facts.get("some-match", 0) + facts.get("all-match", 0) + facts.get("overflow", 0)
+    run.cov["rule"] = "rename calls on accepted packets with well-formed non-root names; non-trivial = at least one name of the packet matches the source (or the call must fail because a rewritten name overflows)"
+    if run.cov["distinct_nontrivial"] < 200 and not bad:
+        raise ToolError("vacuous run: only %d renames matched anything" % run.cov["distinct_nontrivial"])
+    for ln, (t, why) in sorted(bad.items()):
+        run.violation("rename|" + str(why), why, json.loads(scen[ln - 1]))
